@@ -952,7 +952,30 @@ func (w *World) rulesSplit(p *Pkg, m *parseModel, add func(ok bool, rule, inst s
 		// `for curr < K { … }`: cutting stops when curr reaches K
 		if fs, ok := n.(*ast.ForStmt); ok && fs.Cond != nil && K < 0 {
 			if be, ok := fs.Cond.(*ast.BinaryExpr); ok {
-				if u, ok := constUint(info, be.Y); ok && identObj(info, be.X) != nil {
+				// the bound: a constant, or len(dst) - constant with dst the N-slot slice
+				bound := func(e ast.Expr) (uint64, bool) {
+					if u, ok := constUint(info, e); ok {
+						return u, true
+					}
+					lenOf := func(x ast.Expr) bool {
+						c, ok := x.(*ast.CallExpr)
+						if !ok || len(c.Args) != 1 {
+							return false
+						}
+						id, ok := c.Fun.(*ast.Ident)
+						return ok && id.Name == "len" && identObj(info, c.Args[0]) == sp[0]
+					}
+					if lenOf(e) && N >= 0 {
+						return uint64(N), true
+					}
+					if sub, ok := e.(*ast.BinaryExpr); ok && sub.Op == token.SUB && lenOf(sub.X) && N >= 0 {
+						if c, ok := constUint(info, sub.Y); ok && int(c) <= N {
+							return uint64(N) - c, true
+						}
+					}
+					return 0, false
+				}
+				if u, ok := bound(be.Y); ok && identObj(info, be.X) != nil {
 					switch be.Op {
 					case token.LSS, token.NEQ:
 						K = int(u)
